@@ -122,7 +122,7 @@ pub fn raw_model(l: &[Ent], cap: usize, op: Op) -> Option<(Ret, L, usize)> {
         Op::Purge => (Ret::Unit, vec![], cap),
         Op::RemoveLru => (Ret::KV(l.last().copied()), drop_last(l), cap),
         Op::Resize(n) => {
-            let n = n as usize;
+            let n = if n == 255 { usize::MAX } else { n as usize };
             let ev = l.len().saturating_sub(n);
             (Ret::Num(ev as u64), l[..l.len() - ev].to_vec(), n)
         }
@@ -217,9 +217,10 @@ pub fn slru_get(pb: &[Ent], pt: &[Ent], ct: usize, k: u8, c: &mut Counters) -> (
     }
 }
 
-fn slru_spec(pre: &Snap, op: Op, c: &mut Counters) -> Option<Vec<(L, L)>> {
+fn slru_spec(cfg: &Cfg, pre: &Snap, op: Op, c: &mut Counters) -> Option<Vec<(L, L)>> {
     let (pb, pt) = (&pre.lists[0], &pre.lists[1]);
-    let (cb, ct) = (pre.scalars[0] as usize, pre.scalars[1] as usize);
+    // the configured capacities, not whatever the object believes after construction or cloning
+    let (cb, ct) = (cfg.caps[0], cfg.caps[1]);
     Some(match op {
         Op::Put(k, ver) => vec![slru_put(pb, pt, cb, ct, k, (k, ver), c)],
         Op::Get(k) | Op::GetMut(k) => vec![slru_get(pb, pt, ct, k, c)],
@@ -496,12 +497,13 @@ struct WExp {
     pt: L,
 }
 
-fn wtlfu_spec(pre: &Snap, probe: &Probe, op: Op, c: &mut Counters) -> Option<WExp> {
+fn wtlfu_spec(cfg: &Cfg, pre: &Snap, probe: &Probe, op: Op, c: &mut Counters) -> Option<WExp> {
     if probe.estimates.is_empty() {
         return None; // the run did not ask for estimator probes
     }
     let (w, pb, pt) = (&pre.lists[0], &pre.lists[1], &pre.lists[2]);
-    let (cw, cb, ct) = (pre.scalars[0] as usize, pre.scalars[1] as usize, pre.scalars[2] as usize);
+    // configured capacities: cfg.caps = [window, protected, probationary]
+    let (cw, cb, ct) = (cfg.caps[0], cfg.caps[2], cfg.caps[1]);
     Some(match op {
         Op::Put(k, ver) => {
             let v = (k, (k, ver));
@@ -625,6 +627,17 @@ pub fn check_state(cfg: &Cfg, sres: &StateRes, en: &BTreeSet<&'static str>, c: &
             Kind::TwoQ | Kind::Arc => cfg.caps[0],
             Kind::Wtlfu => cfg.caps.iter().sum(),
         };
+        // the per-partition capacities are the configured ones (whatever builder path was taken)
+        let configured: Option<Vec<u64>> = match cfg.kind {
+            Kind::Slru => Some(vec![cfg.caps[0] as u64, cfg.caps[1] as u64]),
+            Kind::Wtlfu => Some(vec![cfg.caps[0] as u64, cfg.caps[2] as u64, cfg.caps[1] as u64]),
+            _ => None,
+        };
+        if let Some(want) = configured {
+            if snap.scalars != want {
+                out.push(f("configured_capacities", format!("{:?}", cfg.kind), format!("per-segment capacities are {:?} but the cache was configured with {:?}", snap.scalars, want)));
+            }
+        }
         if cap != expect_cap {
             out.push(f("cap_reported", format!("{:?}", cfg.kind), format!("cap() == {} but the configured capacity is {}", cap, expect_cap)));
         }
@@ -1116,7 +1129,7 @@ pub fn check_trans(cfg: &Cfg, pre: &Snap, probe: &Probe, op: Op, t: &TransRes, e
             }
         }
         Kind::Slru => {
-            if let Some(acc) = slru_spec(pre, op, c) {
+            if let Some(acc) = slru_spec(cfg, pre, op, c) {
                 if !acc.iter().any(|(a, b)| *a == post.lists[0] && *b == post.lists[1]) {
                     out.push(Finding::new(
                         if op == Op::CloneReplace { "C16" } else { "C07" },
@@ -1176,7 +1189,7 @@ pub fn check_trans(cfg: &Cfg, pre: &Snap, probe: &Probe, op: Op, t: &TransRes, e
             }
         }
         Kind::Wtlfu => {
-            if let Some(e) = wtlfu_spec(pre, probe, op, c) {
+            if let Some(e) = wtlfu_spec(cfg, pre, probe, op, c) {
                 if post.lists[0] != e.w || post.lists[1] != e.pb || post.lists[2] != e.pt {
                     out.push(Finding::new(
                         if op == Op::CloneReplace { "C16" } else { "C10" },
